@@ -249,6 +249,13 @@ func (e *Ev) Note(test string, kv map[string]any) {
 	}
 }
 
+// SetExhaustive overrides the "this enumeration covered its whole domain" flag of a test (e.g. when only a prefix was enumerated).
+func (e *Ev) SetExhaustive(test string, v bool) {
+	e.mu.Lock()
+	defer e.mu.Unlock()
+	e.frag.Exhaustive[test] = v
+}
+
 // Inconclusive records that a guard (time, size) stopped part of the exploration; never a violation.
 func (e *Ev) Inconclusive(what string) {
 	e.mu.Lock()
